@@ -22,7 +22,7 @@ exact-arithmetic (`ℝ`) reading (rounding is not modelled) — or, where stated
   the clamped complement of the mirrored call, for every choice of the sub-kernels), `ib_swapped_le`
   (clamp), `ib_hangs_only_in_series`; the two continued fractions are bounded by the code's own
   300 rounds (total functions in the model).
-* `qBeta`: `qBeta_raises_iff`, `qBeta_ends`, `qBeta_reflect` (`qBeta(p;a,b) = 1 − qBeta(1−p;b,a)` for
+* `qBeta`: `qBeta_raises_iff_partial`, `qBeta_ends`, `qBeta_reflect` (`qBeta(p;a,b) = 1 − qBeta(1−p;b,a)` for
   `1/2 < p < 1`, exactly, by construction of the tail swap), `qBeta_terminates` (both Newton loops
   are bounded by `niterations`: `qBeta` returns whenever `pBeta` does).
 -/
@@ -457,101 +457,249 @@ theorem ib_swapped_le (S : BetaSub ℝ) (x a b v : ℝ) (hsw : ibSwapped x a b =
     | some t => simp only [R.ofOpt, R.map, R.val.injEq] at h; rw [← h]; exact cle t
   · simp only [R.val.injEq] at h; rw [← h]; exact clt _
 
-/-- `incompleteBeta` can fail to return only inside the power series (the continued fractions are
-bounded by the code's own 300 rounds): with a power series that returns, it returns -/
-theorem ib_hangs_only_in_series (S : BetaSub ℝ) (hps : ∀ a b x, S.ps a b x ≠ none) (x a b : ℝ) :
-    incompleteBeta S x a b ≠ .hang := by
-  unfold incompleteBeta
-  split
-  · simp
-  · split
-    · simp
-    · split
-      · simp
-      · split
-        · simp
-        · split
-          · cases h : S.ps a b x with
-            | none => exact absurd h (hps _ _ _)
-            | some v => simp [R.ofOpt]
-          · simp only []
-            split
-            · split
-              · cases h : S.ps b a (one - x) with
-                | none => exact absurd h (hps _ _ _)
-                | some v => simp [R.ofOpt, R.map]
-              · simp
-            · simp
+/-- **Where `incompleteBeta` can fail to return**, pointwise: only inside a call of the power series it
+actually makes — the direct one `ps(α, β, x)` when `β x ≤ 1 ∧ x ≤ 0.95`, or the one after the tail swap
+`ps(β, α, 1 - x)`.  (The continued fractions are bounded by the code's own 300 rounds.) -/
+theorem ib_hang_only_at_series_call (S : BetaSub ℝ) (x a b : ℝ) (h : incompleteBeta S x a b = .hang) :
+    (psCond b x = true ∧ S.ps a b x = none) ∨
+    (psCond b x = false ∧ ibSwap x a b = true ∧ psCond a (1 - x) = true ∧ S.ps b a (1 - x) = none) := by
+  unfold incompleteBeta at h
+  split at h
+  · cases h
+  · split at h
+    · cases h
+    · split at h
+      · cases h
+      · split at h
+        · cases h
+        · split at h
+          · rename_i hps
+            left
+            refine ⟨hps, ?_⟩
+            cases hh : S.ps a b x with
+            | none => rfl
+            | some v => rw [hh] at h; simp [R.ofOpt] at h
+          · rename_i hps
+            right
+            simp only [] at h
+            split at h
+            · rename_i hsw
+              split at h
+              · rename_i hq
+                have e : (one : ℝ) - x = 1 - x := by simp
+                rw [e] at hq h
+                refine ⟨by simpa using hps, hsw, hq, ?_⟩
+                cases hh : S.ps b a (1 - x) with
+                | none => rfl
+                | some v => rw [hh] at h; simp [R.ofOpt, R.map] at h
+              · cases h
+            · cases h
+
+/-- … hence, pointwise: when the two power-series calls `incompleteBeta(x, α, β)` can make return, it
+returns.  (Round-2 version assumed `∀ a b x, S.ps a b x ≠ none`, which the transcribed series with a
+fixed fuel does not satisfy outside its call region; the hypotheses are now at the arguments passed.) -/
+theorem ib_hangs_only_in_series (S : BetaSub ℝ) (x a b : ℝ)
+    (h1 : S.ps a b x ≠ none) (h2 : S.ps b a (1 - x) ≠ none) : incompleteBeta S x a b ≠ .hang := by
+  intro h
+  rcases ib_hang_only_at_series_call S x a b h with ⟨_, hh⟩ | ⟨_, _, _, hh⟩
+  · exact h1 hh
+  · exact h2 hh
+
+/-- the hypotheses of `ib_hangs_only_in_series` hold for the *transcribed* power series at real
+arguments: `betaPs` with `β = 1` (the series `Σ (n-β)…` is identically 0) returns with fuel 1 -/
+example (lg : ℝ → ℝ) (x : ℝ) : (betaSub 1 lg).ps 2 1 x ≠ none := by
+  have h : ¬ ((tiny : ℝ) * 2⁻¹ < 0) := by have := tiny_pos; linarith
+  simp [betaSub, betaPs, iter, psStep, h]
 
 /-! ## `qBeta` -/
 
-/-- whatever the Newton iteration delivers is a value or an outcome of `pBeta`: an outcome `bad` that is
-not a value and that `pBeta` never has is never the outcome of the iteration.  Both loops are
-bounded by the code's own `niterations = 2000` (no fuel in the model). -/
-theorem qbLowerTail_ne (pb : ℝ → ℝ → ℝ → R ℝ) (bad : R ℝ) (hbad : ∀ v, bad ≠ .val v)
-    (hpb : ∀ x y z, pb x y z ≠ bad) (a pp qq lnbeta : ℝ) : qbLowerTail pb a pp qq lnbeta ≠ bad := by
-  unfold qbLowerTail
-  simp only []
+/-- **Whatever the Newton iteration delivers is a value or the outcome of a `pBeta` call it made**,
+pointwise: an outcome `bad` that is not a value was delivered by `pBeta(x, pp, qq)` for some queried
+`x`, *at the working shapes* — the only shapes the iteration passes.  Both loops are bounded by the
+code's own `niterations = 2000` (no fuel in the model). -/
+theorem qbLowerTail_bad_from_query (pb : ℝ → ℝ → ℝ → R ℝ) (bad : R ℝ) (hbad : ∀ v, bad ≠ .val v)
+    (a pp qq lnbeta : ℝ) (h : qbLowerTail pb a pp qq lnbeta = bad) : ∃ x, pb x pp qq = bad := by
+  unfold qbLowerTail at h
+  simp only [] at h
   cases hi : iterCap (qbOuterStep pb a pp qq lnbeta (qbAcu a pp)) niterations
       ⟨qbReset a (qbStart a pp qq lnbeta).2, zero, one, zero, zero⟩ with
-  | inl s => exact fun h => hbad _ h.symm
+  | inl s => rw [hi] at h; exact absurd h.symm (hbad _)
   | inr r =>
-    refine iterCap_inr_inv _ (fun r => r ≠ bad) ?_ _ _ r hi
-    intro s b hs
+    rw [hi] at h
+    simp only at h
+    subst h
+    refine iterCap_inr_inv _ (fun r => (∀ v, r ≠ .val v) → ∃ x, pb x pp qq = r) ?_ _ _ r hi hbad
+    intro s b hs hb
     simp only [qbOuterStep] at hs
     cases hc : pb s.xinbta pp qq with
-    | exc =>
-      rw [hc] at hs; injection hs with hs; rw [← hs]
-      exact fun hb => hpb _ _ _ (hc.trans hb)
-    | hang =>
-      rw [hc] at hs; injection hs with hs; rw [← hs]
-      exact fun hb => hpb _ _ _ (hc.trans hb)
+    | exc => rw [hc] at hs; injection hs with hs; exact ⟨s.xinbta, hc.trans hs⟩
+    | hang => rw [hc] at hs; injection hs with hs; exact ⟨s.xinbta, hc.trans hs⟩
     | val y0 =>
       rw [hc] at hs
       simp only at hs
-      split_ifs at hs <;>
-        (injection hs with hs; rw [← hs]; exact fun h => hbad _ h.symm)
+      split_ifs at hs <;> (injection hs with hs; exact absurd hs.symm (hb _))
 
-/-- **Guard completeness**: given that `pBeta` does not raise at the points the iteration queries
-(its own guard: `ib_exc_iff`), `qBeta` raises iff `prob ∉ [0,1]` or a shape is negative -/
-theorem qBeta_raises_iff (lg : ℝ → ℝ) (pb : ℝ → ℝ → ℝ → R ℝ) (hpb : ∀ x y z, pb x y z ≠ .exc) (prob p q : ℝ) :
-    qBeta lg pb prob p q = .exc ↔ (prob < 0 ∨ 1 < prob ∨ p < 0 ∨ q < 0) := by
+/-- contrapositive form: an outcome `pBeta` never has *at the working shapes* is never the outcome -/
+theorem qbLowerTail_ne (pb : ℝ → ℝ → ℝ → R ℝ) (bad : R ℝ) (hbad : ∀ v, bad ≠ .val v)
+    (a pp qq lnbeta : ℝ) (hpb : ∀ x, pb x pp qq ≠ bad) : qbLowerTail pb a pp qq lnbeta ≠ bad := by
+  intro h
+  obtain ⟨x, hx⟩ := qbLowerTail_bad_from_query pb bad hbad a pp qq lnbeta h
+  exact hpb x hx
+
+/-- the argument checks of `qBeta` (cpp:451-454): `prob ∉ [0,1]` or a negative shape raise, whatever
+`pBeta` is -/
+theorem qBeta_guard_raises (lg : ℝ → ℝ) (pb : ℝ → ℝ → ℝ → R ℝ) (prob p q : ℝ)
+    (h : prob < 0 ∨ 1 < prob ∨ p < 0 ∨ q < 0) : qBeta lg pb prob p q = .exc := by
   unfold qBeta
   by_cases h1 : prob < 0 ∨ 1 < prob
-  · have : prob < 0 ∨ 1 < prob ∨ p < 0 ∨ q < 0 := by tauto
-    simp [h1, this]
-  · by_cases h2 : p < 0 ∨ q < 0
-    · have : prob < 0 ∨ 1 < prob ∨ p < 0 ∨ q < 0 := by tauto
-      simp [h1, h2, this]
-    · have : ¬ (prob < 0 ∨ 1 < prob ∨ p < 0 ∨ q < 0) := by tauto
-      simp only [this, iff_false]
-      simp only [Bool.or_eq_true, ScalarReal.ltb_iff, ScalarReal.gtb_iff, ScalarReal.zero_eq, ScalarReal.one_eq,
-        h1, h2, if_false]
-      split
-      · simp
-      · split
-        · exact qbLowerTail_ne pb .exc (by simp) hpb _ _ _ _
-        · exact R.map_ne _ _ _ (by simp) (qbLowerTail_ne pb .exc (by simp) hpb _ _ _ _)
+  · simp [h1]
+  · have h2 : p < 0 ∨ q < 0 := by tauto
+    simp [h1, h2]
 
-/-- **Totality**: both Newton loops carry the code's own cap, so `qBeta` returns whenever `pBeta` does -/
-theorem qBeta_terminates (lg : ℝ → ℝ) (pb : ℝ → ℝ → ℝ → R ℝ) (hpb : ∀ x y z, pb x y z ≠ .hang) (prob p q : ℝ) :
-    qBeta lg pb prob p q ≠ .hang := by
+/-- **Past its own checks `qBeta` raises only through a `pBeta` call it makes**, pointwise: for
+`0 ≤ prob ≤ 1` and non-negative shapes an exception of `qBeta(prob, α, β)` is the exception of some
+`pBeta(x, α, β)` (lower tail) or `pBeta(x, β, α)` (upper tail).  For every `pBeta`. -/
+theorem qBeta_raises_only_through_pBeta (lg : ℝ → ℝ) (pb : ℝ → ℝ → ℝ → R ℝ) (prob p q : ℝ)
+    (hg : ¬ (prob < 0 ∨ 1 < prob ∨ p < 0 ∨ q < 0)) (h : qBeta lg pb prob p q = .exc) :
+    ∃ x, pb x p q = .exc ∨ pb x q p = .exc := by
+  have h1 : ¬ (prob < 0 ∨ 1 < prob) := by tauto
+  have h2 : ¬ (p < 0 ∨ q < 0) := by tauto
+  unfold qBeta at h
+  simp only [Bool.or_eq_true, ScalarReal.ltb_iff, ScalarReal.gtb_iff, ScalarReal.zero_eq, ScalarReal.one_eq,
+    h1, h2, if_false] at h
+  split at h
+  · cases h
+  · split at h
+    · obtain ⟨x, hx⟩ := qbLowerTail_bad_from_query pb .exc (by simp) _ _ _ _ h
+      exact ⟨x, Or.inl hx⟩
+    · have h' := R.map_eq_bad _ _ _ (by simp) h
+      obtain ⟨x, hx⟩ := qbLowerTail_bad_from_query pb .exc (by simp) _ _ _ _ h'
+      exact ⟨x, Or.inr hx⟩
+
+/-- **Guard completeness of `qBeta` over the transcribed `pBeta`, as far as it is proved** (`_partial`).
+The full statement for positive shapes is `qBeta(prob, α, β) raises ↔ prob < 0 ∨ prob > 1`.  Proved:
+`←` (`qBeta_guard_raises`) and, for `→`, that an exception inside `0 ≤ prob ≤ 1` with `α, β > 0` can
+only come from a Newton iterate `x` *outside `[0,1]`* handed to `pBeta` (whose own guard is
+`ib_exc_iff`).  Missing: that no iterate leaves `[0,1]`.  By `qbInner_exit_in_unit` and
+`qbReset_in_unit` every accepted trial point and the start lie in `[0,1]`; the only leak is the inner
+loop running into its cap of 2000 step reductions with its last trial point outside, which exact
+arithmetic does not exclude.  The driver checks it on every `k.qbeta` / `qbeta` op (an exception
+inside the domain with positive shapes is a `FAIL:qBeta_raises_iff`). -/
+theorem qBeta_raises_iff_partial (lg : ℝ → ℝ) (S : BetaSub ℝ) (prob p q : ℝ) (hp : 0 < p) (hq : 0 < q)
+    (h0 : 0 ≤ prob) (h1 : prob ≤ 1) (h : qBeta lg (incompleteBeta S) prob p q = .exc) :
+    ∃ x, (x < 0 ∨ 1 < x) ∧ (incompleteBeta S x p q = .exc ∨ incompleteBeta S x q p = .exc) := by
+  have hg : ¬ (prob < 0 ∨ 1 < prob ∨ p < 0 ∨ q < 0) := by
+    push Not; exact ⟨h0, h1, le_of_lt hp, le_of_lt hq⟩
+  obtain ⟨x, hx⟩ := qBeta_raises_only_through_pBeta lg _ prob p q hg h
+  refine ⟨x, ?_, hx⟩
+  rcases hx with hx | hx
+  · rcases (ib_exc_iff S x p q).mp hx with h | h | h | h
+    · linarith
+    · linarith
+    · exact Or.inl h
+    · exact Or.inr h
+  · rcases (ib_exc_iff S x q p).mp hx with h | h | h | h
+    · linarith
+    · linarith
+    · exact Or.inl h
+    · exact Or.inr h
+
+/-- **A zero shape raises** (the checks of `qBeta` are `< 0`, those of `pBeta` `≤ 0`): for `0 < prob < 1`
+and non-negative shapes one of which is 0, `qBeta` over the transcribed `pBeta` raises — in its first
+Newton round.  So the right-hand side of the guard iff for *non-negative* shapes is
+`prob ∉ [0,1] ∨ (0 < prob < 1 ∧ (α = 0 ∨ β = 0))` up to the leak described at `qBeta_raises_iff_partial`. -/
+theorem qBeta_zero_shape_raises (lg : ℝ → ℝ) (S : BetaSub ℝ) (prob p q : ℝ) (h0 : 0 < prob) (h1 : prob < 1)
+    (hp : 0 ≤ p) (hq : 0 ≤ q) (hz : p = 0 ∨ q = 0) : qBeta lg (incompleteBeta S) prob p q = .exc := by
+  have a1 : ¬ (prob < 0 ∨ 1 < prob) := by push Not; constructor <;> linarith
+  have a2 : ¬ (p < 0 ∨ q < 0) := by push Not; exact ⟨hp, hq⟩
+  have a3 : prob ≠ 0 := ne_of_gt h0
+  have a4 : prob ≠ 1 := ne_of_lt h1
+  have first : ∀ a pp qq l, (pp ≤ 0 ∨ qq ≤ 0) → qbLowerTail (incompleteBeta S) a pp qq l = .exc := by
+    intro a pp qq l hz'
+    have e : ∀ x, incompleteBeta S x pp qq = .exc := fun x =>
+      (ib_exc_iff S x pp qq).mpr (by rcases hz' with h | h; exact Or.inl h; exact Or.inr (Or.inl h))
+    have hn : niterations = 1999 + 1 := rfl
+    simp only [qbLowerTail, hn, iterCap, qbOuterStep, e]
   unfold qBeta
+  simp only [Bool.or_eq_true, ScalarReal.ltb_iff, ScalarReal.gtb_iff, ScalarReal.eqb_iff, ScalarReal.zero_eq,
+    ScalarReal.one_eq, a1, a2, a3, a4, if_false, or_self]
   split
-  · simp
-  · split
-    · simp
-    · split
-      · simp
-      · split
-        · exact qbLowerTail_ne pb .hang (by simp) hpb _ _ _ _
-        · exact R.map_ne _ _ _ (by simp) (qbLowerTail_ne pb .hang (by simp) hpb _ _ _ _)
+  · exact first _ _ _ _ (by rcases hz with h | h; exact Or.inl (le_of_eq h); exact Or.inr (le_of_eq h))
+  · rw [first _ _ _ _ (by rcases hz with h | h; exact Or.inr (le_of_eq h); exact Or.inl (le_of_eq h))]
+    rfl
 
-/-- the hypothesis of `qBeta_terminates` is satisfiable by the transcribed `incompleteBeta` whenever its
-power series returns (`ib_hangs_only_in_series`) -/
-example (S : BetaSub ℝ) (hps : ∀ a b x, S.ps a b x ≠ none) (lg : ℝ → ℝ) (prob p q : ℝ) :
-    qBeta lg (incompleteBeta S) prob p q ≠ .hang :=
-  qBeta_terminates lg _ (ib_hangs_only_in_series S hps) prob p q
+/-- the example of the audit: `qBeta(0.25, 0, 1)` raises although none of `qBeta`'s own checks fires -/
+example (lg : ℝ → ℝ) (S : BetaSub ℝ) : qBeta lg (incompleteBeta S) (1 / 4) 0 1 = .exc :=
+  qBeta_zero_shape_raises lg S _ _ _ (by norm_num) (by norm_num) (le_refl _) (by norm_num) (Or.inl rfl)
+
+/-- Round-2 form of the guard iff, kept under the name that says what it needs: it applies to a
+`pBeta` that **never** raises *at the working shapes* — not to the transcribed `incompleteBeta`, which
+raises outside `[0,1]` (use `qBeta_raises_iff_partial` there). -/
+theorem qBeta_raises_iff_of_total_pBeta (lg : ℝ → ℝ) (pb : ℝ → ℝ → ℝ → R ℝ) (prob p q : ℝ)
+    (hpq : ∀ x, pb x p q ≠ .exc) (hqp : ∀ x, pb x q p ≠ .exc) :
+    qBeta lg pb prob p q = .exc ↔ (prob < 0 ∨ 1 < prob ∨ p < 0 ∨ q < 0) := by
+  refine ⟨fun h => ?_, qBeta_guard_raises lg pb prob p q⟩
+  by_contra hg
+  obtain ⟨x, hx | hx⟩ := qBeta_raises_only_through_pBeta lg pb prob p q hg h
+  · exact hpq x hx
+  · exact hqp x hx
+
+/-- a `pBeta` meeting the hypotheses of `qBeta_raises_iff_of_total_pBeta`: one that never raises
+(the identity) -/
+example (lg : ℝ → ℝ) (prob p q : ℝ) :
+    qBeta lg (fun x _ _ => R.val x) prob p q = .exc ↔ (prob < 0 ∨ 1 < prob ∨ p < 0 ∨ q < 0) :=
+  qBeta_raises_iff_of_total_pBeta lg _ prob p q (fun _ => by simp) (fun _ => by simp)
+
+/-- **Where `qBeta` can fail to return**, pointwise: both Newton loops carry the code's own cap, so a
+`hang` of `qBeta(prob, α, β)` is the `hang` of a `pBeta(x, α, β)` or `pBeta(x, β, α)` call it made -/
+theorem qBeta_hang_only_through_pBeta (lg : ℝ → ℝ) (pb : ℝ → ℝ → ℝ → R ℝ) (prob p q : ℝ)
+    (h : qBeta lg pb prob p q = .hang) : ∃ x, pb x p q = .hang ∨ pb x q p = .hang := by
+  unfold qBeta at h
+  split at h
+  · cases h
+  · split at h
+    · cases h
+    · split at h
+      · cases h
+      · split at h
+        · obtain ⟨x, hx⟩ := qbLowerTail_bad_from_query pb .hang (by simp) _ _ _ _ h
+          exact ⟨x, Or.inl hx⟩
+        · have h' := R.map_eq_bad _ _ _ (by simp) h
+          obtain ⟨x, hx⟩ := qbLowerTail_bad_from_query pb .hang (by simp) _ _ _ _ h'
+          exact ⟨x, Or.inr hx⟩
+
+/-- **Totality**, pointwise in the shapes: `qBeta(prob, α, β)` returns whenever `pBeta(·, α, β)` and
+`pBeta(·, β, α)` do (hypotheses at the two shape pairs the routine passes; round 2 had them for all
+shapes) -/
+theorem qBeta_terminates (lg : ℝ → ℝ) (pb : ℝ → ℝ → ℝ → R ℝ) (prob p q : ℝ)
+    (hpq : ∀ x, pb x p q ≠ .hang) (hqp : ∀ x, pb x q p ≠ .hang) : qBeta lg pb prob p q ≠ .hang := by
+  intro h
+  obtain ⟨x, hx | hx⟩ := qBeta_hang_only_through_pBeta lg pb prob p q h
+  · exact hpq x hx
+  · exact hqp x hx
+
+/-- … and over the transcribed `incompleteBeta`: a `hang` of `qBeta` is a power-series call that did
+not return, at shapes `(α, β)` or `(β, α)` and an argument inside the series region -/
+theorem qBeta_hangs_only_in_series (lg : ℝ → ℝ) (S : BetaSub ℝ) (prob p q : ℝ)
+    (h : qBeta lg (incompleteBeta S) prob p q = .hang) :
+    ∃ x a b, ((a = p ∧ b = q) ∨ (a = q ∧ b = p)) ∧ psCond b x = true ∧ S.ps a b x = none := by
+  obtain ⟨x, hx | hx⟩ := qBeta_hang_only_through_pBeta lg _ prob p q h
+  · rcases ib_hang_only_at_series_call S x p q hx with ⟨h1, h2⟩ | ⟨_, _, h1, h2⟩
+    · exact ⟨x, p, q, Or.inl ⟨rfl, rfl⟩, h1, h2⟩
+    · exact ⟨1 - x, q, p, Or.inr ⟨rfl, rfl⟩, h1, h2⟩
+  · rcases ib_hang_only_at_series_call S x q p hx with ⟨h1, h2⟩ | ⟨_, _, h1, h2⟩
+    · exact ⟨x, q, p, Or.inr ⟨rfl, rfl⟩, h1, h2⟩
+    · exact ⟨1 - x, p, q, Or.inl ⟨rfl, rfl⟩, h1, h2⟩
+
+/-- the hypotheses of `qBeta_terminates` hold for the transcribed `incompleteBeta` with a power series
+that returns at the two shape pairs (here: the transcribed `betaPs` at `β = α = 1`, fuel 1) -/
+example (lg : ℝ → ℝ) (prob : ℝ) : qBeta lg (incompleteBeta (betaSub 1 lg)) prob 1 1 ≠ .hang := by
+  intro h
+  obtain ⟨x, a, b, hab, _, hps⟩ := qBeta_hangs_only_in_series lg _ prob 1 1 h
+  have : a = 1 ∧ b = 1 := by rcases hab with h | h <;> exact h
+  rw [this.1, this.2] at hps
+  have h' : ¬ ((tiny : ℝ) < 0) := by have := tiny_pos; linarith
+  simp [betaSub, betaPs, iter, psStep, h'] at hps
 
 /-- end points are returned as they are (also for a zero shape: the check is `< 0`) -/
 theorem qBeta_ends (lg : ℝ → ℝ) (pb : ℝ → ℝ → ℝ → R ℝ) (p q : ℝ) (hp : 0 ≤ p) (hq : 0 ≤ q) :
